@@ -21,8 +21,13 @@ CONSTANTS MaxDocs, MaxFaults,
           DeadWriterStaysDead,  \* TRUE = repaired code (F5): a writer whose worker failed refuses
                                 \* add and commit; FALSE = a later commit returns Ok without the
                                 \* documents added in between
-          KillUpdaterOnSaveFail \* TRUE = repaired code (F40); FALSE = the updater keeps serving
+          KillUpdaterOnSaveFail,\* TRUE = repaired code (F40); FALSE = the updater keeps serving
                                 \* merges with registers that describe the failed commit
+          PipeCap,              \* capacity of the document pipeline (the code: 10 000 batches): add_document BLOCKS
+                                \* when it is full
+          KillDropsReceiver     \* TRUE = code: the dying worker's bomb drops the last pipeline receiver, which wakes a
+                                \* producer blocked in add_document with an error; FALSE (seeded C11-s21): it only
+                                \* clears the alive flag and the blocked producer hangs
 
 VARIABLES
   alive,      \* the writer accepts work (index_writer_status)
@@ -37,103 +42,134 @@ VARIABLES
   attempted,  \* every [docs, op] some commit call tried to publish (returned Ok or failed in its task)
   lastRes,    \* result of the last call: "ok" | "err" | "none"
   lastCall,
-  faults, nextDoc, opst
+  faults, nextDoc, opst,
+  blocked     \* a producer thread is inside add_document, waiting for room in the full pipeline
 
-vars == <<alive, workers, upd, pipeline, segs, creg, pend, commd, disk, attempted, lastRes, lastCall, faults, nextDoc, opst>>
+vars == <<alive, workers, upd, pipeline, segs, creg, pend, commd, disk, attempted, lastRes, lastCall, faults, nextDoc, opst, blocked>>
 
 Empty == [docs |-> {}, op |-> 0]
 Init == /\ alive = TRUE /\ workers = TRUE /\ upd = TRUE /\ pipeline = {} /\ segs = {} /\ creg = {} /\ pend = {}
         /\ commd = Empty /\ disk = Empty /\ attempted = {Empty}
-        /\ lastRes = "none" /\ lastCall = "none" /\ faults = 0 /\ nextDoc = 1 /\ opst = 0
+        /\ lastRes = "none" /\ lastCall = "none" /\ faults = 0 /\ nextDoc = 1 /\ opst = 0 /\ blocked = FALSE
 
 CanFault == faults < MaxFaults
 
 AddOk ==
+  /\ ~blocked /\ Cardinality(pipeline) < PipeCap
   /\ nextDoc <= MaxDocs /\ (alive \/ ~DeadWriterStaysDead)
   /\ pipeline' = pipeline \cup {nextDoc} /\ pend' = pend \cup {nextDoc} /\ nextDoc' = nextDoc + 1
   /\ lastRes' = "ok" /\ lastCall' = "add"
-  /\ UNCHANGED <<alive, workers, upd, segs, creg, commd, disk, attempted, faults, opst>>
+  /\ UNCHANGED <<alive, workers, upd, segs, creg, commd, disk, attempted, faults, opst, blocked>>
 AddErr ==
+  /\ ~blocked
   /\ nextDoc <= MaxDocs /\ ~alive /\ DeadWriterStaysDead
   /\ nextDoc' = nextDoc + 1 /\ lastRes' = "err" /\ lastCall' = "add"
+  /\ UNCHANGED <<alive, workers, upd, pipeline, segs, creg, pend, commd, disk, attempted, faults, opst, blocked>>
+
+\* the pipeline is full: the producer waits inside add_document ...
+AddBlock ==
+  /\ ~blocked /\ alive /\ workers /\ Cardinality(pipeline) >= PipeCap /\ nextDoc <= MaxDocs
+  /\ blocked' = TRUE
+  /\ UNCHANGED <<alive, workers, upd, pipeline, segs, creg, pend, commd, disk, attempted, lastRes, lastCall, faults, nextDoc, opst>>
+\* ... until a worker has made room (the call then succeeds) ...
+AddResume ==
+  /\ blocked /\ alive /\ Cardinality(pipeline) < PipeCap
+  /\ blocked' = FALSE
+  /\ pipeline' = pipeline \cup {nextDoc} /\ pend' = pend \cup {nextDoc} /\ nextDoc' = nextDoc + 1
+  /\ lastRes' = "ok" /\ lastCall' = "add"
+  /\ UNCHANGED <<alive, workers, upd, segs, creg, commd, disk, attempted, faults, opst>>
+\* ... or the writer died: with the receiver gone the send fails and the call returns the error
+AddWake ==
+  /\ blocked /\ ~alive /\ KillDropsReceiver
+  /\ blocked' = FALSE /\ nextDoc' = nextDoc + 1
+  /\ lastRes' = "err" /\ lastCall' = "add"
   /\ UNCHANGED <<alive, workers, upd, pipeline, segs, creg, pend, commd, disk, attempted, faults, opst>>
 
 \* a worker turns pipeline documents into a segment (add_segment is an updater task) ...
 WorkerFlush ==
   /\ workers /\ pipeline # {} /\ upd
   /\ segs' = segs \cup pipeline /\ pipeline' = {}
-  /\ UNCHANGED <<alive, workers, upd, creg, pend, commd, disk, attempted, lastRes, lastCall, faults, nextDoc, opst>>
+  /\ UNCHANGED <<alive, workers, upd, creg, pend, commd, disk, attempted, lastRes, lastCall, faults, nextDoc, opst, blocked>>
 \* ... or hits an I/O error (or a dead updater): its documents are lost, the writer is dead
 WorkerFail ==
   /\ workers /\ pipeline # {} /\ (CanFault \/ ~upd)
   /\ pipeline' = {} /\ alive' = FALSE /\ faults' = IF upd THEN faults + 1 ELSE faults
-  /\ UNCHANGED <<workers, upd, segs, creg, pend, commd, disk, attempted, lastRes, lastCall, nextDoc, opst>>
+  /\ UNCHANGED <<workers, upd, segs, creg, pend, commd, disk, attempted, lastRes, lastCall, nextDoc, opst, blocked>>
 
 \* commit = join the workers (a failed worker surfaces here), then the commit task
 CommitJoinErr ==
+  /\ ~blocked
   /\ ~alive /\ workers
   /\ workers' = FALSE       \* the failed join leaves no worker behind
   /\ pipeline' = {}
   /\ lastRes' = "err" /\ lastCall' = "commit"
-  /\ UNCHANGED <<alive, upd, segs, creg, pend, commd, disk, attempted, faults, nextDoc, opst>>
+  /\ UNCHANGED <<alive, upd, segs, creg, pend, commd, disk, attempted, faults, nextDoc, opst, blocked>>
 CommitDeadErr ==
+  /\ ~blocked
   /\ ~alive /\ ~workers /\ DeadWriterStaysDead
   /\ lastRes' = "err" /\ lastCall' = "commit"
-  /\ UNCHANGED <<alive, workers, upd, pipeline, segs, creg, pend, commd, disk, attempted, faults, nextDoc, opst>>
+  /\ UNCHANGED <<alive, workers, upd, pipeline, segs, creg, pend, commd, disk, attempted, faults, nextDoc, opst, blocked>>
 \* the updater was killed by an earlier failed save_metas: the task is refused
 CommitUpdDeadErr ==
+  /\ ~blocked
   /\ alive /\ workers /\ ~upd /\ pipeline = {}
   /\ lastRes' = "err" /\ lastCall' = "commit"
-  /\ UNCHANGED <<alive, workers, upd, pipeline, segs, creg, pend, commd, disk, attempted, faults, nextDoc, opst>>
+  /\ UNCHANGED <<alive, workers, upd, pipeline, segs, creg, pend, commd, disk, attempted, faults, nextDoc, opst, blocked>>
 NewCommit == [docs |-> creg \cup segs \cup (IF workers THEN pipeline ELSE {}), op |-> opst + 1]
 CommitOk ==
+  /\ ~blocked
   /\ (alive /\ workers /\ upd) \/ (~DeadWriterStaysDead /\ ~workers /\ upd)
   /\ pipeline' = IF workers THEN {} ELSE pipeline
   /\ segs' = {} /\ creg' = NewCommit.docs
   /\ disk' = NewCommit /\ commd' = NewCommit /\ attempted' = attempted \cup {NewCommit}
   /\ opst' = opst + 1
   /\ lastRes' = "ok" /\ lastCall' = "commit"
-  /\ UNCHANGED <<alive, workers, upd, pend, faults, nextDoc>>
+  /\ UNCHANGED <<alive, workers, upd, pend, faults, nextDoc, blocked>>
 \* the commit task fails: where = "purge" | "before" (save_metas, meta.json not replaced) | "after"
 CommitTaskFail(where) ==
+  /\ ~blocked
   /\ CanFault /\ alive /\ workers /\ upd
   /\ pipeline' = {}
   /\ faults' = faults + 1 /\ opst' = opst + 1
   /\ lastRes' = "err" /\ lastCall' = "commit"
   /\ IF where = "purge"
      THEN /\ segs' = segs \cup pipeline
-          /\ UNCHANGED <<creg, disk, attempted, upd>>
+          /\ UNCHANGED <<creg, disk, attempted, upd, blocked>>
      ELSE /\ segs' = {} /\ creg' = NewCommit.docs
           /\ disk' = IF where = "after" THEN NewCommit ELSE disk
           /\ attempted' = attempted \cup {NewCommit}
           /\ upd' = ~KillUpdaterOnSaveFail
-  /\ UNCHANGED <<alive, workers, pend, commd, nextDoc>>
+  /\ UNCHANGED <<alive, workers, pend, commd, nextDoc, blocked>>
 
 \* a merge of committed segments ends: meta.json is rewritten from the committed register under the
 \* opstamp of the active metas (= the last save_metas that did not fail before the replacement)
 MergeEnd ==
   /\ upd /\ creg # {}
   /\ disk' = [docs |-> creg, op |-> disk.op]
-  /\ UNCHANGED <<alive, workers, upd, pipeline, segs, creg, pend, commd, attempted, lastRes, lastCall, faults, nextDoc, opst>>
+  /\ UNCHANGED <<alive, workers, upd, pipeline, segs, creg, pend, commd, attempted, lastRes, lastCall, faults, nextDoc, opst, blocked>>
 \* a merge that fails (I/O error in the merge thread or in its end_merge task before save_metas) is discarded
 MergeFail ==
   /\ CanFault /\ upd /\ creg # {}
   /\ faults' = faults + 1
-  /\ UNCHANGED <<alive, workers, upd, pipeline, segs, creg, pend, commd, disk, attempted, lastRes, lastCall, nextDoc, opst>>
+  /\ UNCHANGED <<alive, workers, upd, pipeline, segs, creg, pend, commd, disk, attempted, lastRes, lastCall, nextDoc, opst, blocked>>
 
 Rollback ==
+  /\ ~blocked
   /\ alive' = TRUE /\ workers' = TRUE /\ upd' = TRUE /\ pipeline' = {} /\ segs' = {}
   /\ creg' = disk.docs /\ pend' = disk.docs
   /\ commd' = disk      \* a failed commit that took effect is what rollback restores
   /\ lastRes' = "ok" /\ lastCall' = "rollback"
-  /\ UNCHANGED <<disk, attempted, faults, nextDoc, opst>>
+  /\ UNCHANGED <<disk, attempted, faults, nextDoc, opst, blocked>>
 
-Next == AddOk \/ AddErr \/ WorkerFlush \/ WorkerFail \/ CommitJoinErr \/ CommitDeadErr \/ CommitUpdDeadErr \/ CommitOk
+Next == AddOk \/ AddErr \/ AddBlock \/ AddResume \/ AddWake \/ WorkerFlush \/ WorkerFail \/ CommitJoinErr \/ CommitDeadErr \/ CommitUpdDeadErr \/ CommitOk
         \/ CommitTaskFail("purge") \/ CommitTaskFail("before") \/ CommitTaskFail("after")
         \/ MergeEnd \/ MergeFail \/ Rollback
 Spec == Init /\ [][Next]_vars
 
 Bound == opst <= 3
+\* a producer waiting inside add_document can always get out: a worker makes room, or the dead writer's
+\* dropped receiver wakes it with an error (the process does not hang)
+NoStuckProducer == blocked => ENABLED (AddResume \/ AddWake \/ WorkerFlush \/ WorkerFail)
 \* C11: a commit that returns Ok is complete: every document whose add returned Ok is in it
 OkCommitIsComplete == (lastCall = "commit" /\ lastRes = "ok") => disk.docs = pend
 \* C11: the storage always holds the last successful commit, or a failed one that took effect
